@@ -118,7 +118,7 @@ def enum_fields():
                 continue
             base = s[3:]
             for g in (base[0].lower() + base[1:], "is" + base):
-                if re.search(r"[\w>&\s]\s%s\(\)\s*const" % re.escape(g), body):
+                if re.search(r"(?:[\w>]\s+[&*]?|[&*]\s*)%s\(\)\s*const" % re.escape(g), body):
                     out.append("FE(%s, %s, %s, %s);" % (n, s, g, ", ".join(enums[q])))
                     break
     return out
@@ -150,7 +150,7 @@ for n in sorted(set(names)):
             continue  # overloaded
         base = s[3:]
         for g in (base[0].lower() + base[1:], "is" + base, base[0].lower() + base[1:] + "Enabled", "has" + base):
-            if re.search(r"[\w>&\s]\s%s\(\)\s*const" % re.escape(g), pub):
+            if re.search(r"(?:[\w>]\s+[&*]?|[&*]\s*)%s\(\)\s*const" % re.escape(g), pub):
                 lines.append("F(%s, %s, %s);" % (n, s, g))
                 seen.add(s)
                 break
